@@ -206,7 +206,9 @@ func (f *frame) doCall(v *ssa.Call, st *State, reach string) {
 func (f *frame) evalSpecAtSite(src string, st *State, env map[string]Val) (term string, bound bool) {
 	defer func() {
 		if r := recover(); r != nil {
-			if s, ok := r.(string); ok && strings.HasPrefix(s, "spec: unknown name ") {
+			if s, ok := r.(string); ok && strings.HasPrefix(s, "spec: ") {
+				// the clause does not type-check at this site (a name is not in scope,
+				// or is bound to a value of another type here): it does not apply
 				term, bound = "", false
 				return
 			}
@@ -793,6 +795,25 @@ func (f *frame) callByContract(v *ssa.Call, callee *ssa.Function, ctr *Contract,
 	for _, en := range append(append([]Clause{}, ctr.Ensures...), dens...) {
 		e.assume(reach, f.evalSpecIn(callee, en.Src, st, env, pre))
 	}
+	if ctr.Functional && len(rs) == 1 {
+		// same arguments, same result (the callee is pure and nothing it reads changes
+		// between the calls that are compared; assumption listed in the evidence)
+		sym := "uff_" + mangle(shortFn(callee))
+		if !e.declared[sym] {
+			e.declared[sym] = true
+			var ss []string
+			for _, a := range args {
+				ss = append(ss, e.sc.sortOf(a.typ))
+			}
+			e.decls = append(e.decls, fmt.Sprintf("(declare-fun %s (%s) %s)", sym, strings.Join(ss, " "), e.sc.sortOf(rs[0].typ)))
+			e.noteAssumed("functional: the result of " + shortFn(callee) + " depends only on its arguments")
+		}
+		var as []string
+		for _, a := range args {
+			as = append(as, a.term)
+		}
+		e.assume(reach, fmt.Sprintf("(= %s (%s %s))", rs[0].term, sym, strings.Join(as, " ")))
+	}
 	f.setResult(v, rs)
 }
 
@@ -833,6 +854,18 @@ func (f *frame) doBuiltin(v *ssa.Call, b *ssa.Builtin, st *State, reach string) 
 	case "append":
 		s := f.val(args[0])
 		t := f.val(args[1])
+		if rc := f.ctr; rc != nil && f.parent == nil {
+			env := map[string]Val{"arg0": s, "arg1": t}
+			for _, ks := range rc.CallKeeps["append"] {
+				f.keepObligations(ks, st, env, reach, "at@append")
+			}
+			for _, as := range rc.CallAsserts["append"] {
+				if tm, bound := f.evalSpecAtSite(as.Src, st, env); bound {
+					o := e.oblige("at", fmt.Sprintf("%s/at@append:%s", f.name, as.Label), "", reach, tm)
+					o.Slow = as.Slow
+				}
+			}
+		}
 		elem := s.typ.Underlying().(*types.Slice).Elem()
 		newLen := e.idxAdd(fmt.Sprintf("(s_len %s)", s.term), fmt.Sprintf("(s_len %s)", t.term))
 		rb := e.declare("app_base", "Int")
@@ -1015,4 +1048,37 @@ func ghostArgIndex(callee *ssa.Function, pname string) int {
 		return 1
 	}
 	return 0
+}
+
+// keepObligations evaluates a keep directive at a site: the type of In decides
+// the clauses (see keepClauses); sites where In or Out does not bind, or where
+// their types differ, are skipped.
+func (f *frame) keepObligations(ks KeepSpec, st *State, env map[string]Val, reach, where string) {
+	e := f.e
+	var inV, outV Val
+	ok := func() (bound bool) {
+		defer func() {
+			if r := recover(); r != nil {
+				bound = false
+			}
+		}()
+		se := &specEnv{f: f, pkg: f.fn.Pkg.Pkg, st: st, pre: f.pre, names: env}
+		inV = se.evalAny(ks.In)
+		outV = se.evalAny(ks.Out)
+		return true
+	}()
+	if !ok || !types.Identical(inV.typ, outV.typ) {
+		return
+	}
+	se := &specEnv{f: f, pkg: f.fn.Pkg.Pkg}
+	h := se.typeByName(ks.Handle)
+	for _, c := range e.keepClauses(inV.typ, ks.In, ks.Out, h) {
+		src := c.Src
+		if ks.Unless != "" {
+			src = "!(" + ks.Unless + ") ==> (" + src + ")"
+		}
+		if tm, bound := f.evalSpecAtSite(src, st, env); bound {
+			e.oblige("keep", fmt.Sprintf("%s/%s:%s", f.name, where, c.Label), "", reach, tm)
+		}
+	}
 }
